@@ -8,8 +8,9 @@ def queries(tier):
     qs = []
     firsts = C15.REPR if tier == 'quick' else list(range(256))
     lens = [3] if tier == 'quick' else [1, 2, 3, 4, 5]
-    for L in lens:
-        for b in firsts:
+    multi = [ord(c) for c in 'a0=!+&|-/><"\'']
+    for L in lens + ([1, 2] if tier == 'quick' else []):
+        for b in (firsts if L in lens else multi):
             if b in (9, 10, 11, 12, 13, 32):
                 continue
             qs.append(C15.lex_query('lex-step first=0x%02x L=%d' % (b, L), 'harness_lex_step', [L, 0, b],
